@@ -61,17 +61,17 @@ EXTRA = {
  "C12": " A fourth of the corrupted texts is parsed by a strict builder that served tolerant parsers before, another fourth by a strict builder whose lexer builder is shared with a tolerant parser builder. Truncation at every token boundary and inside numeric literals / multi-character operators; eighths of the corrupted texts are parsed with smart semicolons on, under observing plugins, and with the statement loop driven by hand.",
  "C01": " Lexemes are random over the whole lexical grammar (escape families, line continuations, keyword-like and long identifiers, all numeric shapes, CR/trailing blanks in backtick strings); layouts include ';' on the next line. A control-flow-shapes stratum runs nested brace-less if/else chains (dangling else in every position), loops, blocks and early returns under all 16 assignments of four conditions. Every third group of cases is parsed by a long-lived reconfigured builder, every third under observing plugins; every second group compiles with long-lived compilers.",
  "C02": " Lexemes are random over the whole lexical grammar, strings compared by meaning (independent decoder, acorn cross-check); layouts include ';' on the next line; trees carry explicit redundant parentheses. A quarter of the texts each is parsed in tolerant mode, by a long-lived reconfigured builder, and under observing plugins (pass-through and continue-after-next interceptors); property names may be spelled like keyword literals.",
- "C03": " Every 4th random tree is additionally edited in place after it was printed (operator of a binary node replaced on the ast nodes) and must round-trip again. A literal-operands stratum (exhaustive) puts every kind of primary expression (number shapes, strings, single- and multi-line backtick strings, array/object literals, function expressions) into every operand slot of every operator kind; every second group of cases prints through long-lived Compiler values. Every fourth group of cases assembles operator nodes with tokens that carry the type only.",
- "C04": " A third of the stacks is installed in two stages around a first Build (later parsers must see the later interceptors); by a per-step coin statement interceptors parse the statement themselves through the public Parse*Statement API and re-entrant expression interceptors use the specific public prefix functions. Further strata run all clauses on builders that carry registered prefix/infix/postfix operators (levels 2-13; step sequences compared with the text in which built-in operators of the same level stand in), on inputs nested 40-1000 deep, and on large programs.",
- "C05": " Histories contain builds in mid-history, names that are keywords / operator spellings, built-in tokens in roles they lack (accepted once, refused on repeat), and a minimal use of every accepted operator afterwards. Every random mixed tree is also parsed through 1-3 expression interceptors that pass through or continue the expression themselves (ParseRemainingExpression). A third of the random infix operators are words issued through the keyword table or as contextual keywords (look-ahead re-typed by an interceptor); postfix operators hosted by built-in tokens without that role are enumerated; a quarter of the operator tokens is built by hand without positions.",
+ "C03": " Every 4th random tree is additionally edited in place after it was printed (operator of a binary node replaced on the ast nodes) and must round-trip again. A literal-operands stratum (exhaustive) puts every kind of primary expression (number shapes, strings, single- and multi-line backtick strings, array/object literals, function expressions) into every operand slot of every operator kind; every second group of cases prints through long-lived Compiler values. Every fourth group of cases assembles operator nodes with tokens that carry the type only. Literal operands include every object-key form the parser produces (also a computed key).",
+ "C04": " A third of the stacks is installed in two stages around a first Build (later parsers must see the later interceptors); by a per-step coin statement interceptors parse the statement themselves through the public Parse*Statement API and re-entrant expression interceptors use the specific public prefix functions. Further strata run all clauses on builders that carry registered prefix/infix/postfix operators (levels 2-13; step sequences compared with the text in which built-in operators of the same level stand in), on inputs nested 40-1000 deep, and on large programs. A builder-after-mode-setter stratum installs interceptors around a mode-setter call through the receiver and through the returned builder.",
+ "C05": " Histories contain builds in mid-history, names that are keywords / operator spellings, built-in tokens in roles they lack (accepted once, refused on repeat), and a minimal use of every accepted operator afterwards. Every random mixed tree is also parsed through 1-3 expression interceptors that pass through or continue the expression themselves (ParseRemainingExpression). A third of the random infix operators are words issued through the keyword table or as contextual keywords (look-ahead re-typed by an interceptor); postfix operators hosted by built-in tokens without that role are enumerated; a quarter of the operator tokens is built by hand without positions. Every tree is also checked in statement positions and in multi-line layouts with operators leading the lines (default and smart mode); operator tokens may be obtained by re-typing the lexer's ILLEGAL tokens.",
  "C06": " Programs use random lexemes (escapes, line continuations, CR in backtick strings), ';' on the next line and tree-level redundant parentheses.",
- "C07": " Further strata: random code-point escapes in concatenations, literals in other positions (object key, computed key, array element, argument, operand), adjacent string literals under '+' whose texts could merge into a longer escape, CR / CRLF / U+2028 inside backtick strings. Every third group is lexed behind a plugin-consumed marker character; a sixth literal position ends a statement in front of a bracket statement and is printed without semicolons.",
+ "C07": " Further strata: random code-point escapes in concatenations, literals in other positions (object key, computed key, array element, argument, operand), adjacent string literals under '+' whose texts could merge into a longer escape, CR / CRLF / U+2028 inside backtick strings. Every third group is lexed behind a plugin-consumed marker character; a sixth literal position ends a statement in front of a bracket statement and is printed without semicolons. A seventh literal position: parenthesised literal as receiver of a member call.",
  "C08": " Generated positions follow the Source Map line convention (LF, CRLF, lone CR); string lexemes are linked by meaning; programs use random lexemes incl. line continuations and CR in backtick strings. A quarter of the sources contains block-comment lines that a lexer plugin skips through Lexer.ReadChar; a sixth of the trees has every grouping node removed before compiling (printer-inserted parentheses).",
- "C09": " Advanced strings may end in a lone CR or be exactly \"\\r\"; only an LF directly continuing such a CR in the next advanced string is not generated. Advanced strings contain U+2028/2029, NEL, form feed, NUL and stray UTF-8 bytes (ordinary column advances).",
+ "C09": " Advanced strings may end in a lone CR or be exactly \"\\r\"; only an LF directly continuing such a CR in the next advanced string is not generated. Advanced strings contain U+2028/2029, NEL, form feed, NUL and stray UTF-8 bytes (ordinary column advances). On every fourth history the map is read again after another builder was used.",
  "C10": " Inputs include BOM / hashbang / NUL starts, Unicode spaces and line terminators, form feed / vertical tab, numeric separators. Every 64th case is preceded by plugin activity on other builders in the same process (word-like token types, operators, interceptors).",
  "C11": " On every second case ParseProgram is called a second time on the same parser and the contract is checked again. Every 64th case is preceded by plugin activity on other builders; every second group compiles error-free trees with long-lived compilers.",
  "C13": " Half of the tolerant cases are repeated with a plugin statement keyword (`unless`, parsed through the public API into the `while` node) as the fused statement. Smart texts carry comments and blank lines; the builder is reconfigured by calling only the setter whose option changes. Further strata: plugins installed after the modes, registered operator ids 1000-1599 first on a line in smart mode, strict vs tolerant under a statement-stripping plugin, tolerant parses with the statement loop driven by hand.",
- "C14": " Job results include the ids and display forms of the registered token types; half of the builders in the sequential histories are configured in stages with parsers built in between. Compilers created from one option list the caller goes on using keep their configuration; handed-out results are re-read after later compilations. Parser builders of different modes share one lexer builder; source maps completed by the caller; a nested Build from a token interceptor during Build (progress canary on another goroutine); debug string of every single statement.",
+ "C14": " Job results include the ids and display forms of the registered token types; half of the builders in the sequential histories are configured in stages with parsers built in between. Compilers created from one option list the caller goes on using keep their configuration; handed-out results are re-read after later compilations. Parser builders of different modes share one lexer builder; source maps completed by the caller; a nested Build from a token interceptor during Build (progress canary on another goroutine); debug string of every single statement. A Compiler configured again prints like a fresh one; trivia of one tree edited in place leaves other trees alone.",
  "C15": " Programs carry tree-level redundant parentheses (statements beginning with '(('). A third of the sources has no trailing line break; one in six leaves blocks open and is parsed in tolerant mode; every second group of cases prints through long-lived Compiler values. Tool-annotation payloads; half of the programs are first printed with a source map requested.",
  "C16": " Half of the parses run a second parser of the same builder to completion inside an interceptor; half use interceptors that parse statements through the public API; a deep-nesting stratum goes to 128 (thorough 500) nested constructs. A third of the programs contain statements that an interceptor strips (returns nil); the outermost function may lie below 40-200 blocks; half of the malformed inputs are parsed with interceptors installed. Smart modes; the statement loop driven by hand; a plugin that pushes a context value of its own.",
 }
